@@ -248,6 +248,9 @@ def sess_c20(texts, groups):
         for text in texts:
             idx = []
             for e in ('string', 'stream', 'chunked', 'eintr', 'file'):
+                # every entry point starts from the same used state: a configuration holding the tree and the error record
+                # of an earlier, different, failing read ("same result" includes not inheriting anything from it)
+                impl.do('read_string ' + hexs(b'left = "over";\nstale = ;\n'))
                 if e == 'eintr':
                     # the delivery is interrupted by a signal once, at the 1st..4th read call, in pieces of 7 / 4096 / unlimited bytes
                     impl.do('read_eintr %d %d %s' % (rng.choice([7, 7, 4096, 0]), rng.range(1, 4), hexs(text)))
